@@ -424,3 +424,25 @@ def _der_set_additions(env, mod, t, v, codec):
         if r.base.kind == 'SET' and flat_additions(r.base):
             return True
     return False
+
+
+
+@carve('constraints-check-ignores-size-on-referenced-element', ['C11', 'C12'])
+def _cc_size_on_ref(env, mod, t, v, codec):
+    """The constraints checker applies a SIZE written on a type reference only
+    when the reference is a SEQUENCE/SET/CHOICE member."""
+    for r, is_comp in _size_on_ref_nodes(env, mod, t):
+        if not is_comp:
+            return True
+    return False
+
+
+
+@carve('error-path-drops-repeated-member-name', ['C12'])
+def _path_dup(env, mod, t, v, codec):
+    """C12 probes only: v = (corruption kind, path).  A path in which the same member name
+    occurs twice in a row (x.x) loses one level when both levels are the same compiled object."""
+    if not (isinstance(v, tuple) and len(v) == 2 and isinstance(v[1], tuple)):
+        return False
+    names = [p for p in v[1] if isinstance(p, str)]
+    return any(a == b for a, b in zip(names, names[1:]))
